@@ -337,7 +337,7 @@ func init() {
 		CaseCap: 20 * time.Minute, // compact builds under the race detector: ~20 s idle, minutes on an oversubscribed machine
 		Race:    true, RaceThorough: true,
 		Required: []string{"readers_basic", "readers_basic-mutable", "readers_mutable-overlay", "readers_compact", "concurrent_queries", "polyline_queries", "cache_repeat_lookups",
-			"finish_builds", "finish_rejecting_builds", "finish_clockwise_shared_paths", "pbf_source_builds", "compact_parallel_builds"},
+			"finish_builds", "finish_rejecting_builds", "shared_source_builds", "finish_clockwise_shared_paths", "pbf_source_builds", "compact_parallel_builds"},
 		Run: c35Run,
 	})
 }
@@ -558,6 +558,56 @@ func c35Finish(c *core.Ctx) {
 			c.Violate("finish:result-differs-from-one-core", map[string]any{"cores": cores, "first": ds[0].String()},
 				"the world built with %d cores differs from the one built with 1 core in %d observations, first: %.600s", cores, len(ds), ds[0].String())
 			break
+		}
+	}
+	// one source, several builds at once: a builder gets its own copies of the features (it
+	// inverts clockwise paths in place), so the source must read the same afterwards and the
+	// builds must not meet each other in it. Paths carry a list-valued plain tag before their
+	// geometry tag (tag lists are copied value by value).
+	{
+		feats := wm.Features(specs)
+		for _, f := range feats {
+			if gf, ok := f.(*ingest.GenericFeature); ok && gf.FeatureID().Type == b6.FeatureTypePath {
+				list := b6.NewExpressions([]b6.AnyExpression{b6.NewStringExpression("a").AnyExpression, b6.NewStringExpression("b").AnyExpression})
+				gf.Tags = append([]b6.Tag{{Key: "verif:list", Value: list}}, gf.Tags...)
+			}
+		}
+		render := func() string {
+			var sb strings.Builder
+			for _, f := range feats {
+				sb.WriteString(f.FeatureID().String() + " " + obs.RenderTags(f.AllTags()) + "\n")
+			}
+			return sb.String()
+		}
+		before := render()
+		var wg sync.WaitGroup
+		errs := make([]error, 3)
+		worlds := make([]b6.World, 3)
+		for i := range worlds {
+			wg.Add(1)
+			go func(i int) {
+				defer wg.Done()
+				worlds[i], errs[i] = ingest.NewWorldFromSource(ingest.MemoryFeatureSource(feats), &ingest.BuildOptions{Cores: 1 + i})
+			}(i)
+		}
+		wg.Wait()
+		c.Count("shared_source_builds")
+		for i, e := range errs {
+			if e != nil {
+				c.Violate("finish:shared-source:error", nil, "build %d of 3 from one shared source failed: %v", i, e)
+				return
+			}
+		}
+		if after := render(); after != before {
+			c.Violate("finish:shared-source:source-changed", nil, "three builds from one in-memory source changed the source's features")
+			return
+		}
+		d0 := c35Dump(worlds[0])
+		for i := 1; i < 3; i++ {
+			if ds := d0.Diff(c35Dump(worlds[i])); len(ds) > 0 {
+				c.Violate("finish:shared-source:builds-differ", map[string]any{"first": ds[0].String()}, "worlds built at once from one source differ in %d observations, first: %.400s", len(ds), ds[0].String())
+				break
+			}
 		}
 	}
 	// the rejecting path: the same source plus invalid features, built with FailInvalidFeatures;
